@@ -278,6 +278,16 @@ def _restore(P, R):
             exits = [e for e in rs.loop_exits(lp) if not _iter_exit(rs, e, drv)]
             if drv["kind"] == "iterator" and "snapshot" in it and not exits and not A.truncating_adapters(drv["iter_sym"]):
                 okl = True
+    # a successful restore always replaces the state: no Ok return of the File arm is reachable without the clear (an early
+    # `return Ok(())` for an empty snapshot leaves keys put after the checkpoint in place)
+    ok_blocks = [bb for (bb, j, st) in A.aggregates_of(rs, "std::result::Result::Ok") if st[3][0] == 0 and in_arm(bb)]
+    if clears and ok_blocks:
+        r = rs.reach(tgt, avoid_blocks=[c.bb for c in clears])
+        skipped = [bb for bb in ok_blocks if bb in r]
+        if skipped:
+            R.violate("d", "restore-ok-without-clear", "restore can return Ok without clearing the state map (line %d): whatever was put after the checkpoint survives the restore" % rs.stmts(skipped[0])[0][0] if rs.stmts(skipped[0]) else "restore can return Ok without clearing the state map", rs)
+        else:
+            R.hold("d", "every Ok return of the File arm passes state.clear()", fn=rs)
     if clears and okl and all(rs.dominates(clears[0].bb, c.bb) for c in ins):
         R.hold("d", "restore clears the map, then inserts every snapshot entry (no early exit)", fn=rs)
     else:
